@@ -11,7 +11,7 @@ import io
 from xml.sax import SAXParseException
 from xml.sax import expatreader  # type: ignore[attr-defined, unused-ignore]
 from xml.dom import pulldom
-from pyexpat import XMLParserType
+from pyexpat import XMLParserType, XML_PARAM_ENTITY_PARSING_ALWAYS
 
 from xmlschema.aliases import IOType
 from xmlschema.exceptions import XMLSchemaTypeError, XMLSchemaValueError, \
@@ -37,6 +37,8 @@ class SafeExpatParser(expatreader.ExpatParser):  # type: ignore[misc, unused-ign
 
     def reset(self) -> None:
         super().reset()
+        # The base class skips the external DTD subset of standalone documents
+        self._parser.SetParamEntityParsing(XML_PARAM_ENTITY_PARSING_ALWAYS)
         self._parser.EntityDeclHandler = self.forbid_entity_declaration
         self._parser.UnparsedEntityDeclHandler = self.forbid_unparsed_entity_declaration
         self._parser.ExternalEntityRefHandler = self.forbid_external_entity_reference
